@@ -26,7 +26,7 @@ func names(ss []codecx.Shape) []string {
 
 func main() {
 	run := evid.New("C08", "model_checking")
-	run.Rule("case = a packet history over the decoder's shape alphabet (payloads produced by the real encoder for every frame kind at a small limit and at 65000 bytes, malformed variants: empty/1..8 bytes of 0x00 and 0xFF, truncated by one byte, header only, first bytes inverted; x sequence step {next, same, skip} x timestamp {same, new} x marker). (a) all sequences to depth d; (b) lassos prefix(<=1) + cycle(1..2 large shapes) repeated until 2x cap bytes were fed; (c) two-phase lassos. states = distinct abstract decoder states (all slice lengths, integers and booleans of the decoder struct, by reflection); transitions = Decode calls; every trace runs on the implementation itself. non-trivial = history in which the decoder returned a frame or retained > 0 bytes")
+	run.Rule("case = a packet history over the decoder's shape alphabet (payloads produced by the real encoder for every frame kind at a small limit and at 65000 bytes, malformed variants: empty/1..8 bytes of 0x00 and 0xFF, truncated by one byte, header only, first bytes inverted; x sequence step {next, same, skip} x timestamp {same, new} x marker). (a) all sequences to depth d; (b) lassos prefix(<=1) + cycle(1..2 large shapes) repeated until 2x cap bytes were fed; (c) two-phase lassos; (d) boundary exits: for every accumulating lasso (prefix + one large shape repeated) every repetition count k with k x size within [-3,+2] packets of the maximum frame size, followed by every large shape and every valid completing (marker) shape. states = distinct abstract decoder states (all slice lengths, integers and booleans of the decoder struct, by reflection); transitions = Decode calls; every trace runs on the implementation itself. non-trivial = history in which the decoder returned a frame or retained > 0 bytes")
 	run.Assume("retained memory is measured structurally: capacities of all byte slices reachable from the decoder struct (reflection), not process heap")
 	run.Assume("caps are reached with 65000-byte payloads (the decoders do not look at packet size)")
 	run.Assume("KLV documents no maximum: 2 MiB is used as a notional bound, so only growth past it is reported (known finding)")
@@ -76,7 +76,7 @@ func main() {
 	alphaInfo := map[string]any{}
 	secs := map[string]float64{}
 	var mu sync.Mutex
-	exec := func(c *codecx.Codec, prefix, warm []codecx.Shape, warmN int, prefix2, cycle []codecx.Shape, feed int) {
+	exec := func(c *codecx.Codec, prefix, warm []codecx.Shape, warmN int, prefix2, cycle []codecx.Shape, feed int) (maxRet int) {
 		hc := codecx.HostileCase{Codec: c.Name, Prefix: names(prefix), Warmup: names(warm), WarmupN: warmN, Prefix2: names(prefix2), Cycle: names(cycle), FeedBytes: feed}
 		g := run.Begin(c.Name, func() any { return hc })
 		f, res := codecx.RunHostile(c, prefix, warm, warmN, prefix2, cycle, feed, true)
@@ -91,6 +91,7 @@ func main() {
 			run.NontrivialHash(evid.Hash(fmt.Sprint(hc)))
 		}
 		run.OutcomeHash(evid.Hash(fmt.Sprint(c.Name, res.Frames, res.Errors, res.MaxRet)))
+		maxRet = res.MaxRet
 		if f != nil {
 			for i := 0; i < 3 && !run.IsKnown(f.Sig); i++ {
 				f2, _ := codecx.RunHostile(c, prefix, warm, warmN, prefix2, cycle, feed, false)
@@ -103,6 +104,7 @@ func main() {
 		} else if len(cycle) > 0 && run.NeedSample() && res.MaxRet > 100000 {
 			run.Sample(map[string]any{"case": hc, "steps": res.Steps, "max_retained": res.MaxRet, "frames": res.Frames, "errors": res.Errors})
 		}
+		return maxRet
 	}
 
 	for _, c := range all {
@@ -210,8 +212,42 @@ func main() {
 			}
 		}
 		run.AddInt("lassos", int64(len(ls)))
+		rets := make([]int, len(ls))
 		evid.Parallel(len(ls), 16, func(i int) {
-			exec(c, ls[i].prefix, ls[i].warm, ls[i].warmN, ls[i].prefix2, ls[i].cycle, feed)
+			rets[i] = exec(c, ls[i].prefix, ls[i].warm, ls[i].warmN, ls[i].prefix2, ls[i].cycle, feed)
+		})
+		// (d) exits at the boundary: for every accumulating lasso (prefix + one large shape repeated) every
+		// repetition count around the point where the accumulated size reaches the maximum, followed by
+		// every large shape and every valid shape that can complete a frame (marker). This is where "the
+		// completing packet is the one that crosses the limit" lives.
+		var exits []codecx.Shape
+		exits = append(exits, lbig...)
+		for _, s := range alpha {
+			if s.Valid && s.Marker && s.SeqStep == 1 && s.Len < 4096 {
+				exits = append(exits, s)
+			}
+		}
+		type sweep struct {
+			prefix []codecx.Shape
+			a, e   codecx.Shape
+			k      int
+		}
+		var sw []sweep
+		for i, l := range ls {
+			if l.warm != nil || len(l.cycle) != 1 || rets[i] < c.Cap/2 {
+				continue
+			}
+			a := l.cycle[0]
+			k0 := c.Cap / max(a.Len, 1)
+			for k := max(k0-3, 0); k <= k0+2; k++ {
+				for _, e := range exits {
+					sw = append(sw, sweep{l.prefix, a, e, k})
+				}
+			}
+		}
+		run.AddInt("boundary_exit_sweeps", int64(len(sw)))
+		evid.Parallel(len(sw), 16, func(i int) {
+			exec(c, sw[i].prefix, []codecx.Shape{sw[i].a}, sw[i].k, []codecx.Shape{sw[i].e}, nil, 0)
 		})
 		mu.Lock()
 		secs[c.Name] = (run.Elapsed() - t0).Seconds()
